@@ -379,6 +379,23 @@ func checkC10(c *Ctx) {
 			}
 		}
 	}
+	// plurals nested in a case of another plural: the placeholders of the inner
+	// plural are numbered after every placeholder of the outer case (breadth first).
+	for ai, a := range small {
+		for xi, x := range small {
+			for bi, b := range small {
+				if (ai+xi+bi)%3 != 0 && !c.Thorough() {
+					continue
+				}
+				inner := MPart{Kind: "plural", E: vr("a"), Cases: []MCase{{N: 0, Body: []MPart{x}}}, Default: []MPart{x, a}}
+				outer := MPart{Kind: "plural", E: vr("n"), Cases: []MCase{{N: 1, Body: []MPart{a, inner, b}}}, Default: []MPart{b}}
+				one([]MPart{outer}, "")
+				inner2 := MPart{Kind: "plural", E: vr("n"), Default: []MPart{b, x}}
+				outer2 := MPart{Kind: "plural", E: vr("n"), Cases: []MCase{{N: 0, Body: []MPart{x}}}, Default: []MPart{inner2, inner, a}}
+				one([]MPart{outer2}, "")
+			}
+		}
+	}
 }
 
 func msgSketch(parts []MPart) string {
